@@ -93,10 +93,13 @@ theorem C08_stall_raises (t : Nat) (chunks : List (Nat × Bytes)) (need : Nat) (
       omega
     · intro c hc; exact hd c (by simp [hc])
 
-/-- the sockets pynetdicom reads PDUs from get the network timeout, in both roles (regenerated
-from transport.py on every run) -/
+/-- the sockets pynetdicom reads PDUs from get the network timeout, in both roles, and so does the
+accepted socket on which a TLS server performs the handshake (whose reads are blocking reads of the
+same socket: `recvN` applies to them as it does to PDU reads) — regenerated from transport.py on
+every run -/
 theorem C08_config : Gen.Timeouts.requestorReadTimeout = .networkTimeout ∧
-    Gen.Timeouts.acceptorReadTimeout = .networkTimeout := by decide
+    Gen.Timeouts.acceptorReadTimeout = .networkTimeout ∧
+    Gen.Timeouts.tlsHandshakeTimeout = .networkTimeout := by decide
 
 -- non-vacuity: a peer that sends 3 of 6 header bytes and stalls
 example : recvN (some 5) .stall [(1, [1, 0, 0])] 6 [] 0 = .timedOut 6 ∧
